@@ -42,6 +42,7 @@ def run_replay_file(path):
     """Re-execute a replay file against the current tree (CHARTPARSE_REPO): exit 1 if the failure
     reproduces, 0 if not."""
     rec = json.load(open(path))
+    __import__("os").environ["VERIF_CURRENT_PROP"] = rec.get("property") or ""
     print(json.dumps({k: rec[k] for k in ("property", "unit", "obligation")}, indent=1))
     try:
         from . import native
